@@ -237,6 +237,27 @@ def universe(cg, profile="std", level_nts=(), needles=None, types=None):
             F.append(("forall_int", "n", ("or", ("not", c_start), ("smt", ["<=", ["str.to.int", ["v", "n"]], ["i", 2]]))))
             F.append(("exists_int", "n", ("and", c_start, q("forall", T, "a", None, "start", ("count", "a", nd, ("v", "n"))))))
             F.append(("forall_int", "n", ("or", ("not", c_start), q("exists", T, "a", None, "start", ("not", ("count", "a", nd, ("v", "n")))))))
+    # --- quantifiers whose body does not mention the bound variable: the (possibly empty) domain alone decides
+    for T in types:
+        others = [U for U in types if U != T][:2]
+        bodies = [("false",), ("true",), start_atoms[0], ("not", start_atoms[0])]
+        for U in others:
+            bodies.append(q("exists", U, "b", None, "start", ("smt", ["=", ["str.len", ["v", "b"]], ["i", 1]])))
+            bodies.append(q("forall", U, "b", None, "start", ("smt", ["=", ["str.len", ["v", "b"]], ["i", 1]])))
+        for body in bodies[: (8 if full else 5)]:
+            F.append(q("forall", T, "a", None, "start", body))
+            F.append(q("exists", T, "a", None, "start", body))
+        F.append(q("forall", types[0], "c", None, "start", q("forall", T, "a", None, "c", ("false",))))
+        F.append(q("exists", types[0], "c", None, "start", q("exists", T, "a", None, "c", ("true",))))
+    # --- numeric quantifier around a plain (count-free) tree quantifier
+    for T in types[: (3 if full else 1)]:
+        inner_f = q("forall", T, "a", None, "start", ("smt", ["=", ["str.len", ["v", "a"]], ["i", 1]]))
+        inner_e = q("exists", T, "a", None, "start", ("smt", ["=", ["str.len", ["v", "a"]], ["i", 1]]))
+        one = ("smt", ["=", ["str.to.int", ["v", "n"]], ["i", 1]])
+        F.append(("exists_int", "n", ("and", one, inner_f)))
+        F.append(("exists_int", "n", ("and", one, inner_e)))
+        F.append(("forall_int", "n", ("or", ("not", one), inner_f)))
+        F.append(("exists_int", "n", ("and", one, q("forall", T, "a", None, "start", ("smt", ["=", ["str.len", ["v", "a"]], ["str.to.int", ["v", "n"]]])))))
     # dedupe, keep order
     seen = set()
     out = []
